@@ -210,7 +210,9 @@ def compression_rule(F, rep):
     rep.ob("compression.reader-agnostic", not bad, peppifmt.READ, "branches", "the reader branches on a compression value at %s (decompression must be selected by the IPC metadata inside arrow2)" % bad[:2])
     # the stream the reader parses is the stream the writer produced: same magic, one batch, one struct column
     rt = tir.pretty(F.body("io::peppi::de::read_arrow_frames")["tir"]["value"])
-    rep.ob("arrow.magic", "io::expect_bytes(&mut r, &[65, 82, 82, 79, 87, 49, 0, 0])?" in rt.replace("(", "[", 0).replace("&(65, 82, 82, 79, 87, 49, 0, 0)", "&[65, 82, 82, 79, 87, 49, 0, 0]"),
+    raf = F.body("io::peppi::de::read_arrow_frames")
+    ebs = [x for x in tir.walk(raf["tir"]["value"]) if x.get("k") == "Call" and (declared(x) or "") == "io::expect_bytes"]
+    rep.ob("arrow.magic", len(ebs) >= 1 and F.bytes_of(ebs[0]["args"][1]) == [65, 82, 82, 79, 87, 49, 0, 0],
            "io::peppi::de::read_arrow_frames", "magic", "the Arrow entry must start with the file magic ARROW1\\0\\0 written by FileWriter")
     rep.ob("arrow.single-batch", "multiple batches" in "".join(str(x.get("v")) for x in tir.walk(F.body("io::peppi::de::read_arrow_frames")["tir"]["value"]) if x.get("k") == "Lit" and x.get("lit") == "str") or "Some(_) => return" in rt,
            "io::peppi::de::read_arrow_frames", "batches", "exactly one record batch is written and expected")
@@ -220,6 +222,35 @@ def compression_rule(F, rep):
     arms, m, loop = peppifmt.reader_arms(F)
     rep.ob("arrow.import-version", import_args_ok(F, arms), peppifmt.READ, "import-args",
            "frames must be imported with the version of the start block read from the same archive")
+
+
+def depth_rule(F, rep):
+    """metadata.json is parsed by serde_json, whose default recursion limit is 128 (one unit per nested object): the UBJSON reader
+    must not accept deeper maps than that, or a replay it accepts cannot be read back from the .slpp"""
+    import order
+    import safety
+    b = F.body("io::ubjson::de::to_val")
+    bound = None
+    if b is not None:
+        par = safety.parents(b["tir"]["value"])
+        for n in tir.walk(b["tir"]["value"]):
+            if n.get("k") in ("Call", "MethodCall") and (callee(n) or "").startswith("io::ubjson::de::read_map"):
+                # the guard `depth < CONST` (or its spellings) that bounds this recursive call
+                for c in tir.walk(b["tir"]["value"]):
+                    if c.get("k") == "Binary" and c.get("op") in ("Lt", "Le", "Gt", "Ge"):
+                        for side in (c["l"], c["r"]):
+                            try:
+                                v = order.Evaluator(F).eval(side, {})
+                            except L.Unsupported:
+                                continue
+                            if isinstance(v, int) and not isinstance(v, bool):
+                                strict = c["op"] in ("Lt", "Gt")
+                                bound = v if strict else v + 1      # depth may be at most bound - 1 when recursing
+    # depth d recursion allowed for d < bound, entered with d + 1: the deepest value sits at depth `bound`; the top-level metadata map adds one object
+    nesting = (bound + 1) if bound is not None else None
+    rep.ob("metadata.depth-json", nesting is not None and nesting <= 127, "io::ubjson::de::to_val", "MAX_DEPTH",
+           "the .slp reader accepts metadata maps nested %s deep, serde_json (metadata.json in the .slpp) stops at 127 nested objects: a replay accepted from .slp could not be read back from its .slpp" % nesting,
+           sample={"max_object_nesting": nesting, "serde_json_limit": 127})
 
 
 def run(F, rep, tier):
@@ -236,6 +267,7 @@ def run(F, rep, tier):
     entry_agreement(F, rep)
     C11.persistence_rule(F, G, rep)
     compression_rule(F, rep)
+    depth_rule(F, rep)
     # clause 4: the .slp side of the trip (C01's core clauses, run here too so that a break on that side is reported under C02 as well)
     import emission
     from props import C04
